@@ -47,8 +47,26 @@ class Rec:
         self.template_methods = set()
 
 
+ENUMS = {}   # qualified enum name -> [enumerator names]
+
+
 def collect(docs):
     recs = {}
+
+    def walk_enums(n, scope):
+        for c in n.get("inner", []):
+            k = c.get("kind")
+            if k in ("NamespaceDecl", "CXXRecordDecl") and c.get("name"):
+                walk_enums(c, scope + [c["name"]])
+            elif k == "EnumDecl" and c.get("name"):
+                q = "::".join(scope + [c["name"]])
+                names = [e["name"] for e in c.get("inner", []) if e.get("kind") == "EnumConstantDecl"]
+                if names:
+                    ENUMS[q] = names
+
+    for d in docs:
+        if d.get("kind") == "NamespaceDecl" and d.get("name") == "Tins":
+            walk_enums(d, ["Tins"])
 
     def walk(n, scope, acc_in_parent):
         for c in n.get("inner", []):
@@ -202,7 +220,7 @@ def generate(outdir, repo_include_dirs):
     recs = collect(load_docs(p.stdout))
     lines = ["// generated by lib/gen_api.py from the current libtins headers; do not edit"]
     for m in ("API_CLASS(Q,T,P,A,D,B)", "API_BASE(Q,T,BQ)", "API_BUFCTOR(Q,T)", "API_GETTER(Q,T,N,R)", "API_GETTER_NC(Q,T,N,R)", "API_PAIR(Q,T,N,A,R)",
-              "API_STRUCT_BEGIN(Q,T)", "API_FIELD(Q,N)", "API_FIELD_P(Q,N)", "API_FIELD_A(Q,N)", "API_FIELD_B(Q,N)", "API_STRUCT_END(Q,T)", "API_VSTRUCT_BEGIN(Q,T)", "API_VGETTER(Q,N)", "API_VSTRUCT_END(Q,T)"):
+              "API_STRUCT_BEGIN(Q,T)", "API_FIELD(Q,N)", "API_FIELD_P(Q,N)", "API_FIELD_A(Q,N)", "API_FIELD_B(Q,N)", "API_STRUCT_END(Q,T)", "API_VSTRUCT_BEGIN(Q,T)", "API_VGETTER(Q,N)", "API_VSTRUCT_END(Q,T)", "API_ENUM_BEGIN(Q)", "API_ENUMERATOR(Q,E)", "API_ENUM_END(Q)"):
         name = m.split("(")[0]
         lines.append("#ifndef %s\n#define %s\n#endif" % (name, m))
     stats = {"classes": 0, "pdu_classes": 0, "bufctors": 0, "getters": 0, "pairs": 0, "structs": 0}
@@ -270,6 +288,16 @@ def generate(outdir, repo_include_dirs):
                     for n in names:
                         lines.append("API_VGETTER(%s, %s)" % (q, n))
                     lines.append("API_VSTRUCT_END(%s, %s)" % (q, tag))
+    # enumerations nested in public PDU classes: their enumerators are the in-range values
+    for q in sorted(ENUMS):
+        parent = "::".join(q.split("::")[:-1])
+        if parent in recs and publicly_nested(recs, parent) and not any(q.startswith(s_) for s_ in SKIP_CLASSES) and recs[parent].access_in_parent == "public":
+            scope = parent
+            lines.append("API_ENUM_BEGIN(%s)" % q)
+            for nme in ENUMS[q][:64]:
+                lines.append("API_ENUMERATOR(%s, %s::%s)" % (q, scope, nme))
+            lines.append("API_ENUM_END(%s)" % q)
+            stats["enums"] = stats.get("enums", 0) + 1
     lines.append("// stats: " + json.dumps(stats))
     tmp = out + ".tmp"
     with open(tmp, "w") as f:
